@@ -97,7 +97,8 @@ Inductive op :=
 | SignatureVerify (u : Z) (params : bool)
 | MAC (u : Z) (alg data : bool)
 | DeriveKey (us : list Z) (m : Z)
-| GetWrap (u w : Z).
+| GetWrap (u w : Z)
+| ForeignUse (u : Z).     (* Activate / Revoke / Destroy of u sent by an identity that does not own it *)
 
 (* which guard refused *)
 Inductive refusal := RNotFound | RNoState | RState | RType | RMask | RWrapKeyMissing | RParams.
@@ -251,6 +252,15 @@ Definition step (cok : bool) (s : store) (o : op) : outcome * store :=
               else if negb (has_key_block (oty ob)) then (Refused RType IllegalOperation, s)
               else if cok then (OK, s) else (CryptoFail, s)
           end
+      end
+  | ForeignUse u =>
+      (* _get_object_type raises ItemNotFound for an unknown identifier; otherwise the default policy (ACTIVATE,
+         REVOKE, DESTROY are ALLOW_OWNER for every object type) makes _get_object_with_access_controls feign
+         ignorance: PermissionDenied.  (GET - under which the cryptographic operations run - is ALLOW_ALL for
+         certificates and public keys; that is property C03's matter and not modelled here.) *)
+      match lookup u (objs s) with
+      | None => (Refused RNotFound ItemNotFound, s)
+      | Some _ => (Refused RNotFound PermissionDenied, s)
       end
   end.
 
